@@ -201,6 +201,11 @@ struct Rec {
 VERIF_MISLEADING_ORDER(Rec, key)
 struct RecLess { bool operator()(const Rec& a, const Rec& b) const { return a.key < b.key; } };
 struct RecClass { bool operator()(const Rec& a, const Rec& b) const { return a.key / 4 > b.key / 4; } };
+//! stateful order with heap-owned state: records ordered by a rank table
+struct RecByRank {
+    std::vector<int> rank;
+    bool operator()(const Rec& a, const Rec& b) const { return rank[(size_t)a.key % rank.size()] < rank[(size_t)b.key % rank.size()]; }
+};
 struct StrLenLess { bool operator()(const std::string& a, const std::string& b) const { return a.size() < b.size(); } };
 
 template <typename T, typename Cmp, typename Full>
@@ -210,7 +215,12 @@ static void rand_one(Rng& rng, const char* tname, const char* cname, std::vector
         for (int entry = 0; entry < 2; ++entry) {
             std::vector<T> a = in;
             a.resize(n + 1);  // slot behind the range, must stay untouched
-            if (entry == 0) direct(fam, a.data(), n, sn::CS_IfSwap<Cmp>(cmp));
+            if (entry == 0) {
+                // the conditional-swap object is built from a temporary copy of the comparator in a
+                // statement of its own and used afterwards: it has to own its comparator
+                sn::CS_IfSwap<Cmp> cs{ Cmp(cmp) };
+                direct(fam, a.data(), n, cs);
+            }
             else dispatched(fam, a.data(), a.data() + n, cmp);
             a.resize(n);
             std::string why;
@@ -254,6 +264,10 @@ static void mode_rand(Rng& rng, uint64_t) {
             auto full = [](const Rec& a, const Rec& b) { return a.key != b.key ? a.key < b.key : a.payload < b.payload; };
             rand_one(rng, "record", "by-key", v, RecLess(), full);
             rand_one(rng, "record", "by-key-class-desc", v, RecClass(), full);
+            RecByRank by_rank;
+            by_rank.rank.resize(1 + rng.below(40));
+            for (auto& x : by_rank.rank) x = (int)rng.below(6);
+            rand_one(rng, "record", "by-rank-table", v, by_rank, full);
         }
     }
 }
